@@ -88,9 +88,11 @@ def r2(ctx, prog):
                      'resume() is also conditional on state other than the waiter queue (%s): a post can then wake nobody although a waiter is queued and the resource is available' % sorted(flds - {wq}),
                      where=f.loc(r['i']))
               # the resumed token is the one popped from the front
-              fr = [st for st in f.calls() if st.get('fn') == 'front' and 'obj' in st and (f.field_of(st['obj']) or '').endswith('::' + wq)]
-              pp = [st for st in f.calls() if st.get('fn') in ('pop', 'pop_front') and 'obj' in st and (f.field_of(st['obj']) or '').endswith('::' + wq)]
-              ctx.ob('C18.R2', '%s|fifo-wake' % f.name, bool(fr) and bool(pp) and f.cfg.dominates(q.pt(f, fr[0]), q.pt(f, r)), 'the waiter at the front of the queue is popped and resumed', where=f.loc(r['i']))
+              # (which end: the property fixes the order of the values, not of the waiters — the variant that wakes last-in first-out is behaviour-preserving for it)
+              fr = [st for st in f.calls() if st.get('fn') in ('front', 'back') and 'obj' in st and (f.field_of(st['obj']) or '').endswith('::' + wq)]
+              pp = [st for st in f.calls() if st.get('fn') in ('pop', 'pop_front', 'pop_back') and 'obj' in st and (f.field_of(st['obj']) or '').endswith('::' + wq)]
+              same_end = bool(fr) and bool(pp) and {(fr[0]['fn'], pp[0]['fn'])} <= {('front', 'pop'), ('front', 'pop_front'), ('back', 'pop_back')}
+              ctx.ob('C18.R2', '%s|fifo-wake' % f.name, same_end and f.cfg.dominates(q.pt(f, fr[0]), q.pt(f, r)), 'the waiter read at one end of the queue is the one popped and resumed', where=f.loc(r['i']))
 
 
 def r3(ctx, prog):
@@ -416,4 +418,6 @@ def run(ctx):
     ctx.guard(r8, ctx, prog)
     ctx.guard(r9, ctx, prog)
     ctx.guard(r10, ctx, prog)
+    from rules import C18_replay
+    ctx.guard(C18_replay.r11, ctx, prog)
     return prog
